@@ -881,6 +881,8 @@ def s_sqrt(a):
                         nq_ = sp.expand(sp.rem(nq_, eq_, v_))
                         dq_ = sp.expand(sp.rem(dq_, eq_, v_))
                         break
+            if nq_.is_number and dq_.is_number and not e.is_number:
+                return s_sqrt(Sym(nq_ / dq_))
             cn_, fn_ = sp.factor_list(nq_)
             cd_, fd_ = sp.factor_list(dq_)
             if any(m_ >= 2 for _f, m_ in fn_ + fd_):
@@ -971,6 +973,19 @@ def s_abs(a):
                     rad = sp.expand(sum(co_ * (1 - c_ ** 2) ** (k_ // 2) * s_ ** (k_ % 2) for (k_,), co_ in P_.terms()))
             rad = sp.factor(rad) if rad.count_ops() < 60 else rad
         return s_sqrt(Sym(rad))
+    if active() and getattr(current(), 'lazy_abs', False) and not a.e.is_number:
+        # opt-in (contract option lazy_abs): |x| of a real value whose sign is not known yet is the atom r with r^2 = x^2, r >= 0
+        # (no fork; squares of it rewrite to x^2) -- for code that only ever squares the modulus
+        p_ = current()
+        n_, d_ = numden(a.e)
+        key_, poly_, flip_ = canon(n_ if d_.is_number and d_ > 0 else sp.expand(n_ * d_))
+        if key_ is not None and len(p_.sign_set(key_, poly_)) > 1:
+            sf_ = getattr(p_, 'sqrt_factor', False)
+            p_.sqrt_factor = False
+            try:
+                return s_sqrt(Sym(sp.expand(a.e) ** 2))
+            finally:
+                p_.sqrt_factor = sf_
     return Sym(-a.e) if sign_query(a.e, (NEG,)) else a
 
 
